@@ -2,7 +2,7 @@
    implementation's chain snapshots (kind 2). *)
 From stdpp Require Import list.
 From Coq Require Import ZArith.
-From Verif Require Import S2.Model S2.Replay C01.Spec C01.Replay C02.Spec.
+From Verif Require Import S2.Model S2.Replay C01.Spec C01.Replay C02.Spec C02.Truncated.
 Open Scope Z_scope.
 
 Definition chain_hdrs (tbl : list header) (c : list Z) : option (list header) :=
@@ -11,32 +11,43 @@ Definition chain_hdrs (tbl : list header) (c : list Z) : option (list header) :=
 
 Definition hashes_eqb (a b : list header) : bool := list_eqb Z.eqb (map hid a) (map hid b).
 
-Fixpoint first_bad (P : params) (tbl : list header) (prev : list Z) (i : Z) (tr : list (op * obs)) : option Z :=
+(* result: (step, tag); tag 27 = the change is illegal only as the known
+   finding F27 describes (reorg truncated at the next checkpoint) *)
+Fixpoint first_bad (P : params) (tbl : list header) (prev : list Z) (i : Z) (tr : list (op * obs)) : option (Z * Z) :=
   match tr with
   | [] => None
   | (o, ob) :: rest =>
     let tbl := op_headers o ++ tbl in
-    let ok :=
+    let verdict :=
       match chain_hdrs tbl prev, chain_hdrs tbl (o_chain ob) with
       | Some before, Some after =>
         match o with
         | OHeaders _ now msg =>
-          legal (classify P before after msg) &&
-          match must_adopt P now before msg with
-          | Some expect => hashes_eqb after expect
-          | None => true
-          end
-        | _ => hashes_eqb before after     (* nothing but a headers message changes the chain *)
+          let adopt_ok := match must_adopt P now before msg with
+                          | Some expect => hashes_eqb after expect
+                          | None => true
+                          end in
+          if legal (classify P before after msg) then (if adopt_ok then 0 else 1)
+          else if reorg_truncated_atb P now before after msg then 27 else 1
+        | _ => if hashes_eqb before after then 0 else 1    (* nothing but a headers message changes the chain *)
         end
-      | _, _ => false
+      | _, _ => 1
       end in
-    if ok then first_bad P tbl (o_chain ob) (i + 1) rest else Some i
+    if verdict =? 0 then first_bad P tbl (o_chain ob) (i + 1) rest
+    else if verdict =? 27 then
+      (* report the known finding, but keep judging the rest of the trace *)
+      match first_bad P tbl (o_chain ob) (i + 1) rest with
+      | Some (j, 27) => Some (i, 27)
+      | Some r => Some r
+      | None => Some (i, 27)
+      end
+    else Some (i, 0)
   end.
 
 Definition monitor_row (c : bcase) : list (Z * Z * Z * Z) :=
   let P := bparams c in
   match first_bad P [genesis P] [hid (genesis P)] 0 (btrace c) with
-  | Some i => [(bid c, 2, i, 0)]
+  | Some (i, t) => [(bid c, 2, i, t)]
   | None => []
   end.
 
